@@ -11,7 +11,7 @@ from specs.dispatch import BENIGN
 NAMES = [b'deny', b'c1', b'c2', b'nope']
 
 
-def spec_set_rules(ck, nrules=2):
+def spec_set_rules(ck, nrules=2, nlive=1):
     fn = ck.find(lambda: ck.db.method('GlobalState', 'set_rules'), 'GlobalState::set_rules')
     if fn is None:
         return
@@ -45,11 +45,16 @@ def spec_set_rules(ck, nrules=2):
         posted.append(rc)
         kinds.append(k)
     posted_vec = SeqV.from_items([Ref(rc, ()) for rc in posted], 'Arc<Rule>', 'vec')
-    # the list currently in force: one rule with an arbitrary filter text, already resolved to c1
-    cur_rule, _ = mk_rule(0, 'current')
-    cur_rule = cur_rule.with_field(rf.index('target'), C.mk_option(ex, conns[b'c1']))
-    cur_cell = st.alloc(cur_rule)
-    old_vec = SeqV.from_items([Ref(cur_cell, ())], 'Arc<Rule>', 'vec')
+    # the list currently in force: `nlive` rules with arbitrary target names and filter texts (so a posted list may repeat them,
+    # wholly or as a prefix), already resolved
+    cur_rules, cur_cells = [], []
+    for j in range(nlive):
+        cr, _k = mk_rule(j, 'current')
+        cr = cr.with_field(rf.index('target'), C.mk_option(ex, conns[b'c1']))
+        cur_rules.append(cr)
+        cur_cells.append(st.alloc(cr))
+    cur_rule, cur_cell = cur_rules[0], cur_cells[0]
+    old_vec = SeqV.from_items([Ref(c, ()) for c in cur_cells], 'Arc<Rule>', 'vec')
     rules_cell = st.alloc(old_vec)
     init_fail = [z3.Bool('rule%d_init_fails' % i) for i in range(nrules)]
 
@@ -112,8 +117,7 @@ def spec_set_rules(ck, nrules=2):
         writes = [e for e in o.trace if e[0] == 'rules.write']
         if _is_err_concrete(r):
             ex.prove(o, 'C15/set_rules/rejected-replacement-leaves-the-previous-list-in-force', stored is old_vec and not writes)
-            cur2 = o.mem[cur_cell]
-            ex.prove(o, 'C15/set_rules/rejected-replacement-does-not-touch-live-rules', cur2 is cur_rule)
+            ex.prove(o, 'C15/set_rules/rejected-replacement-does-not-touch-live-rules', all(o.mem[c] is r0 for c, r0 in zip(cur_cells, cur_rules)))
             continue
         ex.prove(o, 'C15/set_rules/list-replaced-by-one-assignment-under-the-write-lock', len(writes) == 1)
         shape_ok = isinstance(stored, SeqV) and stored.items is not None and len(stored.items) == nrules
@@ -134,8 +138,9 @@ def spec_set_rules(ck, nrules=2):
                 if pl is not None:
                     ex.prove(o, 'C15/set_rules/rule-resolved-to-the-upstream-it-names',
                              z3.Implies(kinds[i] == BV(kidx, 64), isinstance(pl, Ref) and pl.cell in (conns[nm].cell, o.mem[conns[nm].cell].cell)))
-    if n < 3:
+    if n < min(2, nrules + 1):
         ck.add('set_rules/reachability', 'vacuous', 'only %d outcomes explored' % n)
     ck.absorb(ex, 'GlobalState::set_rules', [o for o, _ in outs])
-    ck.bounds['set_rules'] = ('%d posted rules, each: target in {deny, c1, c2, unknown}, symbolic init outcome, optional filter text; '
-                              'current list = one rule with arbitrary filter text; awaits complete' % nrules)
+    ck.bounds.setdefault('set_rules', '')
+    ck.bounds['set_rules'] += ('[%d posted rules, each: target in {deny, c1, c2, unknown}, symbolic init outcome, optional filter text <= 8 bytes; '
+                               'current list = %d rule(s) with arbitrary target and filter text; awaits complete] ' % (nrules, nlive))
